@@ -40,7 +40,7 @@ ASSUMPTIONS = [
 ]
 REQUIRED = {"copies": 60, "rechunker_runs": 60, "rechunk_on_load_runs": 40, "per_chunk_merges": 30,
             "metadata_checks": 100, "source_intact_checks": 100, "rows_compared": 1000, "dry_loads": 100,
-            "scheduled_rechunker_runs": 100, "scheduling_points": 10000}
+            "scheduled_rechunker_runs": 100, "scheduling_points": 10000, "multi_target_copies": 15}
 UNIT_TIMEOUT = 1500
 COMP = ("blosc", "zstd", "lz4", "bz2")
 
@@ -168,16 +168,22 @@ def run_case(case):
         src_dir = dir_of(d1, "ev")
         before = tree_hash(d1)
         if op["name"] == "copy":
-            st2 = hrun.make_context(spec, [strax.DataDirectory(d1), strax.DataDirectory(d2)], cfg1)
+            nt = op.get("ntargets", 1)
+            dests = [d2] + [os.path.join(root, f"b{j}") for j in range(1, nt)]
+            st2 = hrun.make_context(spec, [strax.DataDirectory(d1)] + [strax.DataDirectory(x) for x in dests], cfg1)
             try:
                 with common.quiet():
-                    st2.copy_to_frontend("0", "ev", target_frontend_id=1, target_compressor=op["compressor"],
+                    # one explicit target, or (None) every frontend that does not have the data yet
+                    st2.copy_to_frontend("0", "ev", target_frontend_id=1 if nt == 1 else None, target_compressor=op["compressor"],
                                          rechunk=op["rechunk"], rechunk_to_mb=(op["target_rows"] * 24 + 12) / 1e6)
                 cnt["copies"] = 1
+                if nt > 1:
+                    cnt["multi_target_copies"] = 1
             except Exception as e:  # noqa: BLE001
                 add("exception", f"copy_to_frontend failed: {e!r}", e)
                 return viol, cnt
-            check_dest(add, spec, d2, "ev", out["ev"], cnt, "copy_to_frontend")
+            for j, dd in enumerate(dests):
+                check_dest(add, spec, dd, "ev", out["ev"], cnt, f"copy_to_frontend (target {j + 1} of {nt})")
             cnt["source_intact_checks"] = 1
             if tree_hash(d1) != before:
                 add("source-modified", "copy_to_frontend changed the source frontend")
@@ -286,7 +292,7 @@ def gen_cases(seed, lo, hi, tier):
         nchunks = len(lay["cuts"]) - 1
         ops = []
         ops.append({"name": "copy", "compressor": rng.choice(COMP + (None,)), "rechunk": rng.random() < 0.6,
-                    "target_rows": rng.choice([1, 2, 4, 100])})
+                    "target_rows": rng.choice([1, 2, 4, 100]), "ntargets": rng.choice([1, 1, 2, 3])})
         ops.append({"name": "rechunker", "compressor": rng.choice(COMP + (None,)), "rechunk": rng.random() < 0.7,
                     "target_rows": rng.choice([None, 1, 3, 100]), "replace": rng.random() < 0.4,
                     "parallel": rng.choice([False, False, "thread"] + ([] if (q and idx % 8) else ["process"]))})
